@@ -399,6 +399,24 @@ func jobSyncMonitor(res *Result, m *mJob, cfg jsCfg, ops []jsOp, obs []jsObs, js
 							}
 						}
 					}
+					// ... including the Job's own Pods that this pass adopted (its create hit them, the
+					// cached Job - lagging - did not list them yet)
+					for _, a2 := range ob.Actions {
+						if a2.Verb != "create" || a2.Outcome != 1 {
+							continue
+						}
+						for _, p := range ob.CachedPods {
+							listed := false
+							for _, r := range cj.Status.Tasks {
+								if r.Name == p.Name {
+									listed = true
+								}
+							}
+							if p.Name == a2.Name && podControlled(p) && !listed {
+								tks = append(tks, podtaskexecutor.NewPodTask(p, nil))
+							}
+						}
+					}
 					saved := ktime.Clock
 					ktime.Clock = clocktesting.NewFakePassiveClock(time.Unix(now, 0))
 					st, err := jobcontroller.UpdateJobStatusFromTaskRefs(jobutil.UpdateJobTaskRefs(cj, tks))
